@@ -26,7 +26,7 @@ CLAIMED['C06'] = dict(
     technique=PYVC + '; loop invariant over a nondeterministic recv callee with ghost stream state; socketpair replay',
 )
 
-NOT_YET = """'check not built yet in this session (planned in DESIGN.md §6); not claimed until its obligations are discharged'
+NOT_YET = 'check not built yet in this session (planned in DESIGN.md §6); not claimed until its obligations are discharged'
 NA = {}
 
 props = [json.loads(l)['id'] for l in open(os.path.join(ROOT, 'properties.jsonl'))]
